@@ -7,11 +7,11 @@ ALL = ["C%02d" % i for i in range(1, 21)]
 TIE = ("The model is tied to /repo on every run by an exact-arithmetic correspondence: the real generic code is executed at an exact rational "
        "scalar on generated inputs and the model is evaluated on the same inputs inside Coq (vm_compute); executable statements of the property "
        "clauses are also evaluated on the implementation to find a concrete failing input. ")
-SYMTIE = ("Additionally (C01-C15), a symbolic tie is re-established on every run: the compiled generic code is executed on symbolic scalars, all its "
+SYMTIE = ("Additionally (C01-C16, C18), a symbolic tie is re-established on every run: the compiled generic code is executed on symbolic scalars, all its "
           "paths are enumerated, and each path becomes a Coq lemma `forall inputs, path conditions -> model dispatcher = code output` over an "
           "arbitrary field with uninterpreted oracles, proved by coqc in that run (DESIGN 11); the evidence lists the functions tied for all inputs, "
           "those not symbolically executable (index arguments) and any lemma not established. ")
-SYM_PROPS = ["C%02d" % i for i in range(1, 16)]
+SYM_PROPS = ["C%02d" % i for i in range(1, 17)] + ["C18"]
 NOTE = ("Trusted: Coq kernel + vm_compute; axioms as listed per theorem in the evidence file (Print Assumptions, re-parsed every run). The model is "
         "hand-written: the tie to the code is differential (checked on the explored inputs), not a proof of model = code. ")
 RAX = ("Axioms (standard library, as printed by Print Assumptions for the theorems over R): ClassicalDedekindReals.sig_forall_dec, "
@@ -203,6 +203,12 @@ for _p in SYM_PROPS:
         CLAIMED[_p]["technique"] = CLAIMED[_p]["technique"] + " + per-run symbolic-execution tie (path lemmas proved in Coq)"
         CLAIMED[_p]["note"] = CLAIMED[_p]["note"] + (" Symbolic tie trusts rustc's parametric monomorphisation, the symbolic scalar (harness/src/sym.rs, xq.rs) "
                                                    "and symgen.py; its lemmas assume field_theory and asymmetry of < on the scalar type and use no axioms.")
+
+if "C17" in CLAIMED:
+    CLAIMED["C17"]["text"] += (" Additionally the operator-spelling clauses (every form table entry at the exact scalar, Sum/Product, the straight-line "
+                               "programs) are evaluated on symbolic inputs in every run: zero decisions means every comparison was between literally "
+                               "identical expressions, i.e. the spellings agree for every input (DESIGN 11.1).")
+    CLAIMED["C17"]["technique"] += " + per-run symbolic evaluation of the spelling clauses"
 
 def main():
     checks = []
